@@ -37,6 +37,7 @@ from dask_expr._expr import (
     RenameSeries,
     ResetIndex,
     ToFrame,
+    _operands_share_rows,
     determine_column_projection,
     plain_column_projection,
 )
@@ -1001,8 +1002,14 @@ class Len(Reduction):
 
         # Pass through Elemwises, unless we just introduced an Index
         if self.frame._is_length_preserving and not isinstance(self.frame, Index):
-            child = max(self.frame.dependencies(), key=lambda expr: expr.npartitions)
-            return Len(child)
+            if _operands_share_rows(self.frame):
+                child = max(
+                    self.frame.dependencies(), key=lambda expr: expr.npartitions
+                )
+                return Len(child)
+            # operands with different rows are aligned on their labels: the
+            # result is as long as the union, not as long as any one operand
+            return
 
         # Let the child handle it.  They often know best
         if isinstance(self.frame, IO):
